@@ -405,39 +405,53 @@ func calJdRange(c *calCfg, list bool, lo, hi int) (string, []string) {
 	var ps propSink
 	var cur *lib.Date
 	for jd := lo; jd < hi; jd++ {
-		d := cur
-		if d == nil {
-			d = ct.JdTo(jd)
-		}
-		h = mix(mix(mix(h, d.Year), int(d.Month)), int(d.Day))
-		if list {
-			fmt.Fprintf(&sb, "%d/%d/%d;", d.Year, d.Month, d.Day)
-		}
-		// C01 (day number -> date -> day number)
-		if back := ct.ToJd(d); back != jd {
-			ps.add("C01", "cfg=%s jd=%d date=%s ToJd(date)=%d", c.name, jd, dateStr(d), back)
-		}
-		// C02 (well-formed, successor)
-		ml := int(ct.GetMonthLen(d.Year, d.Month))
-		if d.Month < 1 || d.Month > 12 || d.Day < 1 || int(d.Day) > ml || (c.skipYear0 && d.Year == 0) {
-			ps.add("C02", "cfg=%s jd=%d date=%s ill-formed (month length %d)", c.name, jd, dateStr(d), ml)
-		}
-		nx := ct.JdTo(jd + 1)
-		sy, sm, sd := libSucc(c, d)
-		if nx.Year != sy || int(nx.Month) != sm || int(nx.Day) != sd {
-			ps.add("C02", "cfg=%s jd=%d date=%s next=%s expected-successor=%d/%d/%d", c.name, jd, dateStr(d), dateStr(nx), sy, sm, sd)
-		}
-		// C03 (published rule counted from the anchor)
-		ry, rm, rd := c.rule.date(jd)
-		if c.name == "hij-t" {
-			if ty, tm, td, ok := hijTableDate(jd); ok {
-				ry, rm, rd = ty, tm, td
+		func() {
+			defer func() {
+				if r := recover(); r != nil {
+					cur = nil
+					h = mix(h, -1)
+					if list {
+						sb.WriteString("panic;")
+					}
+					for _, p := range []string{"C01", "C02", "C03"} {
+						ps.add(p, "cfg=%s jd=%d panic: %v", c.name, jd, r)
+					}
+				}
+			}()
+			d := cur
+			if d == nil {
+				d = ct.JdTo(jd)
 			}
-		}
-		if d.Year != ry || int(d.Month) != rm || int(d.Day) != rd {
-			ps.add("C03", "cfg=%s jd=%d date=%s rule-date=%d/%d/%d", c.name, jd, dateStr(d), ry, rm, rd)
-		}
-		cur = nx
+			h = mix(mix(mix(h, d.Year), int(d.Month)), int(d.Day))
+			if list {
+				fmt.Fprintf(&sb, "%d/%d/%d;", d.Year, d.Month, d.Day)
+			}
+			// C01 (day number -> date -> day number)
+			if back := ct.ToJd(d); back != jd {
+				ps.add("C01", "cfg=%s jd=%d date=%s ToJd(date)=%d", c.name, jd, dateStr(d), back)
+			}
+			// C02 (well-formed, successor)
+			ml := int(ct.GetMonthLen(d.Year, d.Month))
+			if d.Month < 1 || d.Month > 12 || d.Day < 1 || int(d.Day) > ml || (c.skipYear0 && d.Year == 0) {
+				ps.add("C02", "cfg=%s jd=%d date=%s ill-formed (month length %d)", c.name, jd, dateStr(d), ml)
+			}
+			nx := ct.JdTo(jd + 1)
+			sy, sm, sd := libSucc(c, d)
+			if nx.Year != sy || int(nx.Month) != sm || int(nx.Day) != sd {
+				ps.add("C02", "cfg=%s jd=%d date=%s next=%s expected-successor=%d/%d/%d", c.name, jd, dateStr(d), dateStr(nx), sy, sm, sd)
+			}
+			// C03 (published rule counted from the anchor)
+			ry, rm, rd := c.rule.date(jd)
+			if c.name == "hij-t" {
+				if ty, tm, td, ok := hijTableDate(jd); ok {
+					ry, rm, rd = ty, tm, td
+				}
+			}
+			if d.Year != ry || int(d.Month) != rm || int(d.Day) != rd {
+				ps.add("C03", "cfg=%s jd=%d date=%s rule-date=%d/%d/%d", c.name, jd, dateStr(d), ry, rm, rd)
+			}
+			cur = nx
+		}()
 	}
 	if list {
 		return sb.String(), ps.out()
@@ -455,82 +469,95 @@ func calYmRange(c *calCfg, list bool, ylo, yhi int) (string, []string) {
 		if c.skipYear0 && y == 0 {
 			continue
 		}
-		leap := ct.IsLeap(y)
-		lv := 0
-		if leap {
-			lv = 1
-		}
-		h = mix(h, lv)
-		if list {
-			fmt.Fprintf(&sb, "%d:%d", y, lv)
-		}
-		ny := y + 1
-		if c.skipYear0 && ny == 0 {
-			ny = 1
-		}
-		sum := 0
-		first := make([]int, 14)
-		for m := 1; m <= 12; m++ {
-			l := int(ct.GetMonthLen(y, uint8(m)))
-			sum += l
-			h = mix(h, l)
-			n := clampLen(l)
-			var j1, jn int
-			for d := 1; d <= n; d++ {
-				date := lib.NewDate(y, uint8(m), uint8(d))
-				jd := ct.ToJd(date)
-				h = mix(h, jd)
-				if d == 1 {
-					j1 = jd
+		func() {
+			defer func() {
+				if r := recover(); r != nil {
+					h = mix(h, -1)
+					if list {
+						sb.WriteString("panic;")
+					}
+					for _, p := range []string{"C01", "C03", "C07", "C20"} {
+						ps.add(p, "cfg=%s year=%d panic: %v", c.name, y, r)
+					}
 				}
-				jn = jd
-				// C01 (date -> day number -> date) on well-formed dates
-				if d <= l {
-					if back := ct.JdTo(jd); back.Year != y || int(back.Month) != m || int(back.Day) != d {
-						ps.add("C01", "cfg=%s year=%d month=%d day=%d ToJd=%d JdTo(ToJd)=%s", c.name, y, m, d, jd, dateStr(back))
+			}()
+			leap := ct.IsLeap(y)
+			lv := 0
+			if leap {
+				lv = 1
+			}
+			h = mix(h, lv)
+			if list {
+				fmt.Fprintf(&sb, "%d:%d", y, lv)
+			}
+			ny := y + 1
+			if c.skipYear0 && ny == 0 {
+				ny = 1
+			}
+			sum := 0
+			first := make([]int, 14)
+			for m := 1; m <= 12; m++ {
+				l := int(ct.GetMonthLen(y, uint8(m)))
+				sum += l
+				h = mix(h, l)
+				n := clampLen(l)
+				var j1, jn int
+				for d := 1; d <= n; d++ {
+					date := lib.NewDate(y, uint8(m), uint8(d))
+					jd := ct.ToJd(date)
+					h = mix(h, jd)
+					if d == 1 {
+						j1 = jd
+					}
+					jn = jd
+					// C01 (date -> day number -> date) on well-formed dates
+					if d <= l {
+						if back := ct.JdTo(jd); back.Year != y || int(back.Month) != m || int(back.Day) != d {
+							ps.add("C01", "cfg=%s year=%d month=%d day=%d ToJd=%d JdTo(ToJd)=%s", c.name, y, m, d, jd, dateStr(back))
+						}
+					}
+				}
+				first[m] = j1
+				if list {
+					fmt.Fprintf(&sb, ",%d:%d:%d", l, j1, jn)
+				}
+				// C20 month length bounds
+				if l < minL || l > maxL {
+					ps.add("C20", "cfg=%s year=%d month=%d length=%d outside advertised [%d,%d]", c.name, y, m, l, minL, maxL)
+				}
+				// C03 month lengths follow the rule (outside the hijri table window)
+				if c.name != "hij-t" {
+					if rl := c.rule.mlen(y, m); rl != l {
+						ps.add("C03", "cfg=%s year=%d month=%d length=%d rule-length=%d", c.name, y, m, l, rl)
 					}
 				}
 			}
-			first[m] = j1
-			if list {
-				fmt.Fprintf(&sb, ",%d:%d:%d", l, j1, jn)
-			}
-			// C20 month length bounds
-			if l < minL || l > maxL {
-				ps.add("C20", "cfg=%s year=%d month=%d length=%d outside advertised [%d,%d]", c.name, y, m, l, minL, maxL)
-			}
-			// C03 month lengths follow the rule (outside the hijri table window)
-			if c.name != "hij-t" {
-				if rl := c.rule.mlen(y, m); rl != l {
-					ps.add("C03", "cfg=%s year=%d month=%d length=%d rule-length=%d", c.name, y, m, l, rl)
+			first[13] = ct.ToJd(lib.NewDate(ny, 1, 1))
+			// C07
+			for m := 1; m <= 12; m++ {
+				l := int(ct.GetMonthLen(y, uint8(m)))
+				if gap := first[m+1] - first[m]; gap != l {
+					ps.add("C07", "cfg=%s year=%d month=%d length=%d gap-to-next-month-start=%d", c.name, y, m, l, gap)
 				}
 			}
-		}
-		first[13] = ct.ToJd(lib.NewDate(ny, 1, 1))
-		// C07
-		for m := 1; m <= 12; m++ {
-			l := int(ct.GetMonthLen(y, uint8(m)))
-			if gap := first[m+1] - first[m]; gap != l {
-				ps.add("C07", "cfg=%s year=%d month=%d length=%d gap-to-next-month-start=%d", c.name, y, m, l, gap)
+			ylen := first[13] - first[1]
+			if sum != ylen {
+				ps.add("C07", "cfg=%s year=%d sum-of-month-lengths=%d year-length=%d", c.name, y, sum, ylen)
 			}
-		}
-		ylen := first[13] - first[1]
-		if sum != ylen {
-			ps.add("C07", "cfg=%s year=%d sum-of-month-lengths=%d year-length=%d", c.name, y, sum, ylen)
-		}
-		if c.name == "hij-t" && y >= hijTableYears[0] && y <= hijTableYears[1] {
-			// table years: the leap flag keeps the arithmetic meaning (checked against the rule below)
-		} else if ylen != c.short && ylen != c.short+1 {
-			ps.add("C07", "cfg=%s year=%d year-length=%d not in {%d,%d}", c.name, y, ylen, c.short, c.short+1)
-		} else if leap != (ylen == c.short+1) {
-			ps.add("C07", "cfg=%s year=%d IsLeap=%v year-length=%d", c.name, y, leap, ylen)
-		}
-		if c.rule.leap(y) != leap {
-			ps.add("C03", "cfg=%s year=%d IsLeap=%v rule=%v", c.name, y, leap, !leap)
-		}
-		if list {
-			sb.WriteString(";")
-		}
+			if c.name == "hij-t" && y >= hijTableYears[0] && y <= hijTableYears[1] {
+				// table years: the leap flag keeps the arithmetic meaning (checked against the rule below)
+			} else if ylen != c.short && ylen != c.short+1 {
+				ps.add("C07", "cfg=%s year=%d year-length=%d not in {%d,%d}", c.name, y, ylen, c.short, c.short+1)
+			} else if leap != (ylen == c.short+1) {
+				ps.add("C07", "cfg=%s year=%d IsLeap=%v year-length=%d", c.name, y, leap, ylen)
+			}
+			if c.rule.leap(y) != leap {
+				ps.add("C03", "cfg=%s year=%d IsLeap=%v rule=%v", c.name, y, leap, !leap)
+			}
+			if list {
+				sb.WriteString(";")
+			}
+		}()
 	}
 	if list {
 		return sb.String(), ps.out()
